@@ -105,6 +105,24 @@ def diff_string_lines(a, b, path="", config=None):
     return diff_strings_linewise(a, b)
 
 
+def _get_predicates(config, path):
+    """Get the predicates for path without registering the fallback.
+
+    The predicate tables are defaultdicts: a plain lookup of an unconfigured
+    path stores the default under that path, and such a table can outlive the
+    call (notebook_predicates is module level). diff_dicts takes any stored
+    path as one with explicitly configured predicates, so diffing a list at
+    some path would make a later diff of a dict at the same path fail.
+    """
+    predicates = config.predicates
+    if path in predicates or path in getattr(predicates, 'default_values', ()):
+        return predicates[path]
+    factory = getattr(predicates, 'default_factory', None)
+    if factory is None:
+        return predicates[path]
+    return factory()
+
+
 def diff_sequence_multilevel(a, b, path="", config=None):
     """Compute diff of two lists with configurable behaviour."""
 
@@ -112,7 +130,7 @@ def diff_sequence_multilevel(a, b, path="", config=None):
         config = DiffConfig()
 
     # Invoke multilevel snake computation algorithm
-    compares = config.predicates[path or '/']
+    compares = _get_predicates(config, path or '/')
     snakes = compute_snakes_multilevel(a, b, compares)
 
     # Convert snakes to diff
@@ -126,7 +144,7 @@ def diff_lists(a, b, path="", config=None, shallow_diff=None):
         config = DiffConfig()
 
     # If multiple compares are provided to this path, delegate to multilevel algorithm
-    compares = config.predicates[path or '/']
+    compares = _get_predicates(config, path or '/')
     if len(compares) > 1:
         assert shallow_diff is None
         return diff_sequence_multilevel(a, b, path=path, config=config)
